@@ -536,6 +536,7 @@ func runCFL(o *hx.Opts, rnd *hx.Rand, res *hx.Result) {
 				}
 			}
 			res.Dist(fmt.Sprintf("cfl:accepted-resumes=%d", okResumes))
+			res.Dist("cfl:after-trigger=" + sr.base.Calls[0].Outcome + "/" + sr.base.Calls[0].Status)
 			last := sr.base.Calls[len(sr.base.Calls)-1]
 			if last.Sess != nil {
 				res.Dist(fmt.Sprintf("cfl:runs=%d", min(len(last.Sess.Runs()), 6)))
